@@ -229,6 +229,8 @@ def unforge_contract(data: bytes) -> str:
     :param data: encoded contract
     :returns: base58 encoded address and entrypoint (if exists) separated by `%`
     """
+    if len(data) < 22:
+        raise ValueError(f'address takes 22 bytes, got {len(data)}')
     res = unforge_address(data[:22])
     if len(data) > 22:
         res += f'%{data[22:].decode()}'
